@@ -124,8 +124,8 @@ Lemma agree_hebrew : tables_agree wd_hebrew enc_runs_hebrew = true. Proof. vm_co
 (* PARTIAL: the same check holds for Shift-JIS, EUC-JP and EUC-KR (tables_agree wd_shiftjis enc_runs_sjis = true etc.,
    evaluated once during development: 5 min 46 s of kernel time for the three, point-by-point with linear look-ups) but
    is not part of the build - every change of the encoders would pay it again in the quick tier.  A linear merge over
-   the two sorted tables would make it affordable; not done.  For these three the tie between compose_len and
-   compose_cs is the generated cases (both are evaluated on the same inputs). *)
+   the two sorted tables would make it affordable: DONE in Proofs/TablesAgree.v (runs_agree, all eight stateless table
+   codings in < 4 s; C07_tables_agree). *)
 
 Definition single_octet (c : coding) : Prop := c = CAscii \/ c = CLatin1 \/ c = CCyrillic \/ c = CHebrew.
 
